@@ -34,6 +34,18 @@ theorem acceptOf_safe {σ : Type} (N : Wz.Accept.Neg σ Wz.Accept.Q) (hdr : Opti
 theorem date_safe (pd : Str → Option Nat) (e : Env) : Safe (date pd e) :=
   headerProperty_safe _ _ _ (fun v e he => by simp at he)
 
+/-- the host text `get_host` computes before the trust check -/
+def hostText (idna : Wz.Dbg.Idna) (scheme : Str) (h : Option Str) (srv : Option (Str × Option Nat)) : Str :=
+  match Wz.Dbg.getHost idna scheme h srv none with
+  | .ok v => v
+  | .error _ => []
+
+theorem getHost_some (idna : Wz.Dbg.Idna) (scheme : Str) (h : Option Str) (srv : Option (Str × Option Nat))
+    (tl : List Str) :
+    Wz.Dbg.getHost idna scheme h srv (some tl) =
+      if Wz.Dbg.hostIsTrusted idna (some (hostText idna scheme h srv)) tl
+      then .ok (hostText idna scheme h srv) else .error "SecurityError" := rfl
+
 theorem getHost_spec (idna : Wz.Dbg.Idna) (scheme : Str) (h : Option Str) (srv : Option (Str × Option Nat))
     (tr : Option (List Str)) :
     (∃ v, Wz.Dbg.getHost idna scheme h srv tr = .ok v) ∨
@@ -41,17 +53,10 @@ theorem getHost_spec (idna : Wz.Dbg.Idna) (scheme : Str) (h : Option Str) (srv :
   cases tr with
   | none => left; exact ⟨_, rfl⟩
   | some tl =>
-    cases hr : Wz.Dbg.getHost idna scheme h srv (some tl) with
-    | ok v => left; exact ⟨v, rfl⟩
-    | error err =>
-      right
-      refine ⟨rfl, ?_⟩
-      unfold Wz.Dbg.getHost at hr
-      simp only at hr
-      split at hr
-      · exact absurd hr (by simp)
-      · injection hr with hr
-        rw [← hr]
+    rw [getHost_some]
+    split
+    · left; exact ⟨_, rfl⟩
+    · right; exact ⟨rfl, rfl⟩
 
 /-- reading a modelled attribute returns a value; the one exception is `SecurityError` (an
 HTTPException) from `host` when `trusted_hosts` rejects the Host header -/
